@@ -318,6 +318,67 @@ pub fn run(ctx: &mut Ctx) {
                 report(ctx, "state-inc", format!("State::inc of serial {a:#x} gave {:#x}, expected {want:#x} (strictly greater, wrapping)", u32::from(st.serial())), a, 1);
             }
         }
+        // the same PDUs through partial I/O: a reader that hands out one octet
+        // at a time (with Pending in between) and a writer that accepts only a
+        // few octets per call must not change the serial that crosses the wire
+        {
+            use crate::c07_io::{drive, Chunking, TruncatingReader};
+            let sample: Vec<u32> = vals.iter().copied().take(24).chain(vals.iter().copied().skip(24).step_by(997)).collect();
+            for (i, &a) in sample.iter().enumerate() {
+                let state = State::from_parts(i as u16, Serial::from(a));
+                let chunkings = [Chunking::ByteWise, Chunking::Script(vec![1, 0, 2, 1, 3])];
+                for ch in chunkings.iter() {
+                    let mut bad: Option<&'static str> = None;
+                    let bytes = a.to_be_bytes();
+                    let mut rd = TruncatingReader::new(&bytes, 4, ch.clone());
+                    match drive(SerialQueryPayload::read(&mut rd), 200).0 {
+                        Some(Ok(p)) if p.serial() == Serial::from(a) => {}
+                        _ => bad = Some("serial-query-payload-read-chunked"),
+                    }
+                    let full = SerialNotify::new(1, state);
+                    let fb = full.as_ref().to_vec();
+                    let mut rd = TruncatingReader::new(&fb, fb.len(), ch.clone());
+                    match drive(SerialNotify::read(&mut rd), 400).0 {
+                        Some(Ok(p)) if p.as_ref() == fb.as_slice() => {}
+                        _ => bad = Some("serial-notify-read-chunked"),
+                    }
+                    let full = SerialQuery::new(2, state);
+                    let fb = full.as_ref().to_vec();
+                    let mut rd = TruncatingReader::new(&fb, fb.len(), ch.clone());
+                    match drive(SerialQuery::read(&mut rd), 400).0 {
+                        Some(Ok(p)) if p.as_ref() == fb.as_slice() => {}
+                        _ => bad = Some("serial-query-read-chunked"),
+                    }
+                    evals += 3;
+                    if let Some(what) = bad {
+                        report(ctx, &format!("pdu-wire:{}", what), format!("serial {a:#x} does not survive a read delivered in pieces ({})", ch.label()), a, 0);
+                    }
+                }
+                for k in [1usize, 3, 5, 11] {
+                    let mut bad: Option<&'static str> = None;
+                    for version in 0..3u8 {
+                        let e = EndOfData::new(version, state, timing);
+                        let mut w = ShortWriter { out: Vec::new(), max: k, pend: false };
+                        let done = drive(e.write(&mut w), 400).0;
+                        let want_len = if version == 0 { 12 } else { 24 };
+                        if !matches!(done, Some(Ok(()))) || w.out.len() != want_len || w.out[8..12] != a.to_be_bytes() {
+                            bad = Some("end-of-data-write-short-writes");
+                        }
+                    }
+                    let n = SerialNotify::new(1, state);
+                    let mut w = ShortWriter { out: Vec::new(), max: k, pend: false };
+                    if !matches!(drive(n.write(&mut w), 400).0, Some(Ok(()))) || w.out != n.as_ref() {
+                        bad = Some("serial-notify-write-short-writes");
+                    }
+                    evals += 4;
+                    if let Some(what) = bad {
+                        report(ctx, &format!("pdu-wire:{}", what), format!("serial {a:#x} is not written completely to a sink that accepts {k} octets per call"), a, k as u32);
+                    }
+                }
+            }
+            ctx.sig("pdu wire: reads delivered in pieces");
+            ctx.sig("pdu wire: writes into a sink with short writes");
+        }
         ctx.sig("state inc: boundary and random serials incl. 0xFFFFFFFF");
         ctx.sig("pdu wire: serial notify / serial query / end of data v0,v1,v2 boundary");
         ctx.sig("pdu wire: random serials");
@@ -326,4 +387,32 @@ pub fn run(ctx: &mut Ctx) {
     ctx.sample("comparison", || json!({"a": 0xFFFF_FFFEu32, "d": 3, "b": 1, "expected": "Less", "observed": format!("{:?}", Serial::from(0xFFFF_FFFE).partial_cmp(&Serial::from(1)))}));
     ctx.sample("undefined", || json!({"a": 1, "d": 0x8000_0000u32, "expected": "None", "observed": format!("{:?}", Serial::from(1).partial_cmp(&Serial::from(0x8000_0001)))}));
     ctx.sample("add", || json!({"a": u32::MAX, "n": 0x7FFF_FFFF, "observed": u32::from(Serial::from(u32::MAX).add(0x7FFF_FFFF))}));
+}
+
+
+/// An `AsyncWrite` that accepts at most `max` octets per call and returns
+/// `Pending` before every second call.
+struct ShortWriter {
+    out: Vec<u8>,
+    max: usize,
+    pend: bool,
+}
+
+impl tokio::io::AsyncWrite for ShortWriter {
+    fn poll_write(mut self: std::pin::Pin<&mut Self>, cx: &mut std::task::Context<'_>, buf: &[u8]) -> std::task::Poll<std::io::Result<usize>> {
+        self.pend = !self.pend;
+        if self.pend {
+            cx.waker().wake_by_ref();
+            return std::task::Poll::Pending;
+        }
+        let n = buf.len().min(self.max);
+        self.out.extend_from_slice(&buf[..n]);
+        std::task::Poll::Ready(Ok(n))
+    }
+    fn poll_flush(self: std::pin::Pin<&mut Self>, _: &mut std::task::Context<'_>) -> std::task::Poll<std::io::Result<()>> {
+        std::task::Poll::Ready(Ok(()))
+    }
+    fn poll_shutdown(self: std::pin::Pin<&mut Self>, _: &mut std::task::Context<'_>) -> std::task::Poll<std::io::Result<()>> {
+        std::task::Poll::Ready(Ok(()))
+    }
 }
